@@ -351,13 +351,18 @@ func (p *c17) RunCase(i int) *core.CaseResult {
 		fn = strings.ReplaceAll(fn, "\x00", "'[y]'")
 		for _, tmpl := range []string{"SELECT %s AS v, `arr[0]` AS w FROM t", "SELECT `arr[0]` AS w, '[z]' AS l, %s AS v FROM t", "SELECT id FROM t WHERE FIRST(%s) = 1 AND b != '[]'",
 			// multi-byte characters before, between and after the brackets (offsets are byte offsets)
-			"SELECT 'Zoë' AS who, %s AS v FROM t", "SELECT a AS `größe`, %s AS v, 'ж' AS z FROM t"} {
+			"SELECT 'Zoë' AS who, %s AS v FROM t", "SELECT a AS `größe`, %s AS v, 'ж' AS z FROM t",
+			// MySQL double-quoted string literals before the brackets (IdiomaticArrays without the dialect option)
+			"SELECT \"dq\" AS d, %s AS v FROM t", "SELECT \"it's [x]\" AS d, %s AS v, \"]\" AS e FROM t"} {
 			canon := fmt.Sprintf(tmpl, fn)
 			idi := fmt.Sprintf(tmpl, br)
 			a := gq.Run(c17Doc(), canon)
 			r.Execs++
 			oa := outcome(a)
 			for _, m := range []int{2, 3} {
+				if m == 3 && strings.Contains(tmpl, "\"") {
+					continue // under the dialect option a double-quoted token is an identifier: another statement
+				}
 				b := gq.Run(c17Doc(), idi, combos[m]...)
 				// the canonical spelling under the option must be unchanged too
 				c2 := gq.Run(c17Doc(), canon, combos[m]...)
@@ -418,6 +423,18 @@ func (p *c17) RunCase(i int) *core.CaseResult {
 			a := gq.Run(map[string]any{"root": c17Doc()}, sql, opts...)
 			b := gq.Run(c17Doc(), sql, append(append([]genql.QueryOption{}, opts...), genql.Wrapped())...)
 			r.Execs += 2
+			// the same on an input that has a top-level key named root of its own
+			rooted := func() map[string]any {
+				d := c17Doc()
+				d["root"] = map[string]any{"t": []any{map[string]any{"id": 9.0, "a": 9.0, "g": "z", "items": []any{}}}, "u": []any{}}
+				return d
+			}
+			a2 := gq.Run(map[string]any{"root": rooted()}, sql, opts...)
+			b2 := gq.Run(rooted(), sql, append(append([]genql.QueryOption{}, opts...), genql.Wrapped())...)
+			r.Execs += 2
+			if oa2, ob2 := outcome(a2), outcome(b2); oa2 != ob2 && !(strings.HasPrefix(oa2, "panic") && strings.HasPrefix(ob2, "panic")) {
+				r.Fail("C17|wrapped|"+optName(m)+"|own-root-key", fmt.Sprintf("%s on an input with a top-level key `root`: {root: input} -> %s; Wrapped() -> %s", sql, oa2, ob2), map[string]any{"sql": sql, "options": optName(m)})
+			}
 			oa, ob := outcome(a), outcome(b)
 			if !strings.HasPrefix(oa, "error") && oa != "[]" {
 				r.Nontrivial = true
@@ -433,7 +450,7 @@ func (p *c17) RunCase(i int) *core.CaseResult {
 
 func (p *c17) Meta() core.Meta {
 	return core.Meta{
-		Rule:        "identifier cases: every string of length 1..3 (thorough 4) over {a,b,space,',[,],.,0,é} as a double-quoted identifier under PostgresEscapingDialect vs the same backtick identifier without it, in 5 clause positions, with and without IdiomaticArrays; literal cases: every string of length 1..3 (thorough 4) over {a,space,\",',`,\\,[,],ë} as a string literal (echo and WHERE operand) and as a backtick alias under the three non-trivial option combinations; array cases: every bracket expression of depth <= 2 (thorough 3) over elements {1,'x',a,'[y]','é',nested} vs the ARRAY(...) spelling, next to a backtick selector with brackets, a literal with brackets, and literals / aliases with multi-byte characters before and after the brackets; same-text cases: 6 statements that are legal with and without an option but mean something else, executed under alternating settings in one process (both orders); wrapped cases: 15 queries (paths, joins, CTE, subqueries with <-, EXISTS, UNION, missing path) on {root: doc} vs doc with Wrapped(), under 4 option combinations. Oracle: both executions return the same rows or both fail; literal and alias contents are compared with the expected value directly. non-trivial = the canonical execution succeeded / the string contains a special character",
+		Rule:        "identifier cases: every string of length 1..3 (thorough 4) over {a,b,space,',[,],.,0,é} as a double-quoted identifier under PostgresEscapingDialect vs the same backtick identifier without it, in 5 clause positions, with and without IdiomaticArrays; literal cases: every string of length 1..3 (thorough 4) over {a,space,\",',`,\\,[,],ë} as a string literal (echo and WHERE operand) and as a backtick alias under the three non-trivial option combinations; array cases: every bracket expression of depth <= 2 (thorough 3) over elements {1,'x',a,'[y]','é',nested} vs the ARRAY(...) spelling, next to a backtick selector with brackets, a literal with brackets, and literals / aliases with multi-byte characters before and after the brackets; same-text cases: 6 statements that are legal with and without an option but mean something else, executed under alternating settings in one process (both orders); wrapped cases: 15 queries (paths, joins, CTE, subqueries with <-, EXISTS, UNION, missing path) on {root: doc} vs doc with Wrapped() (also for a doc that has a top-level key named root of its own), under 4 option combinations. Oracle: both executions return the same rows or both fail; literal and alias contents are compared with the expected value directly. non-trivial = the canonical execution succeeded / the string contains a special character",
 		Assumptions: []string{"double quotes inside double-quoted identifiers are outside the enumerated alphabet (the property fixes no escape for them)", "a panic on both sides is C10's matter and is not counted as an option-induced difference"},
 		Bounds:      map[string]any{"identifiers": len(p.idents), "literals": len(p.lits), "array_expressions": len(p.arrays), "wrapped_queries": len(p.queries)},
 		Exhaustive:  true,
